@@ -188,6 +188,7 @@ OPS = [
   ("spline_two_parts", "*", op_value("Pair", IS_SPLINE_EXP, lambda v, rng: ">=".join(v.split(">=")[:2]).strip() + ")")),
   ("spline_four_parts", "*", op_value("Pair", IS_SPLINE_EXP, lambda v, rng: v[:-1] + " >=3.0 as.constant 0.0)")),
   ("spline_two_arguments", "*", op_value("Pair", IS_SPLINE_EXP, lambda v, rng: v[:-1] + ", as.constant 1.0)")),
+  ("spline_middle_is_modifier", "*", op_value("Pair", IS_SPLINE_EXP, lambda v, rng: v.replace("exp_spline", "sum(as.constant 1.0, as.constant 2.0)"))),
   ("spline_unknown_type", "*", op_value("Pair", IS_SPLINE_EXP, lambda v, rng: v.replace("exp_spline", rng.choice(["cubic_spline", "as.exp_spline", "spline5"])))),
   ("exp_spline_given_parameters", "*", op_value("Pair", IS_SPLINE_EXP, lambda v, rng: v.replace("exp_spline", "exp_spline 1.1"))),
   ("buck4_spline_missing_r_min", "*", op_value("Pair", IS_SPLINE_B4, lambda v, rng: v.replace("buck4_spline 1.5", "buck4_spline"))),
